@@ -26,6 +26,7 @@ AllActs ==
   \cup {A("AssignFromPart", n, m, Undef, i, FALSE, TRUE) : n \in Names, m \in Names, i \in 1..4}
   \cup {A(nm, n, m, Undef, 0, FALSE, TRUE) : nm \in {"Destructure", "DestructureTooMany"}, n \in Names, m \in Names}
   \cup {[A("DestructureVar", n, m, Undef, 0, FALSE, TRUE) EXCEPT !.k = k] : n \in Names, m \in Names, k \in Names}
+  \cup {A("FailingCall", n, NoName, Undef, i, FALSE, TRUE) : n \in Names, i \in 0..9}   \* i = spelling (lib/sessionlib.py)
 
 Alphabet == {a \in AllActs : a.a \in ActKinds}
 
